@@ -39,7 +39,7 @@ ASSUMPTIONS = [
     "file form: extra columns are floats (the reader's documented behaviour)",
 ]
 REQUIRED = ["tree_form_checked", "table_form_checked", "file_form_checked", "idempotence_checked",
-            "tap_sort_nodes_impl", "is_sorted_true"]
+            "tap_sort_nodes_impl", "is_sorted_true", "tree_root_not_at_0"]
 FLOOR = {"quick": 1500, "thorough": 30000}
 SHARDS = {"quick": 8, "thorough": 16}
 
@@ -95,6 +95,19 @@ def _tree_form(ctx, case, spec):
     from swcgeom.core import sort_tree
     from swcgeom.core import swc_utils as su
 
+    if case.get("root_elsewhere") and len(spec["pid"]) >= 2:
+        # a tree whose root is not stored at position 0 (what re-rooting without sorting returns)
+        rng = np.random.default_rng(case["tseed"])
+        n = len(spec["pid"])
+        old_of_new = rng.permutation(n)
+        if old_of_new[0] == int(np.nonzero(spec["pid"] == -1)[0][0]):
+            old_of_new[[0, 1]] = old_of_new[[1, 0]]
+        new_of_old = np.empty(n, dtype=np.int64)
+        new_of_old[old_of_new] = np.arange(n)
+        pid_old = spec["pid"][old_of_new]
+        spec = {k: np.asarray(v)[old_of_new] for k, v in spec.items()}
+        spec["pid"] = np.where(pid_old < 0, -1, new_of_old[np.maximum(pid_old, 0)]).astype(np.int32)
+        ctx.count("tree_root_not_at_0")
     tree = G.build(spec)
     before = {k: v.copy() for k, v in tree.ndata.items()}
     out = sort_tree(tree)
@@ -305,7 +318,8 @@ def run(ctx):
                         "xcol": str(rng.choice(["none", "big_int", "f64", "obj", "bool"])),
                         "tseed": int(rng.integers(0, 2**31 - 1))}
                 if form == "tree":
-                    case.update(ids="plain", order="asis", xcol="none")
+                    case.update(ids="plain", order="asis", xcol="none",
+                                root_elsewhere=bool(rng.random() < 0.35))
                 ctx.case(case, nontrivial=nontrivial, klass=f"{form}/{rc['shape']}")
                 execute(ctx, case)
         # one deep chain per shard (stack discipline on deep inputs)
